@@ -40,7 +40,7 @@ type Pools struct {
 
 var topSegs = []string{"assets", "expenses", "petty cash", "checking", "income", "liabilities", "equity", "Assets", "Expenses", "misc", "x", "активы", "projects"}
 var subSegs = []string{"cash", "food", "bank checking", "card1", "чек", "наличные", "opening balances", "Salary", "a", "B2", "y😀z", "rent", "café", "long account segment name", "2024", "bank 2", "acct-1"}
-var symPool = []string{"$", "€", "EUR", "USD", "AAPL", "AB C", "ACME Inc.", "£", "🍎 X", "ЕВРО"}
+var symPool = []string{"$", "€", "EUR", "USD", "AAPL", "AB C", "ACME Inc.", "£", "🍎 X", "ЕВРО", "H2O", "VTI2"}
 var payeePool = []string{"shop", "Whole Foods", "café", "Ашан", "grocery store", "x", "landlord", "bakery 😀"}
 var tagPool = []string{"k", "trip", "Project-1", "a_b", "type"}
 var tagVals = []string{"", "v", "two words", "2024-01-02", "é😀", "x1"}
@@ -605,6 +605,9 @@ type WSOpts struct {
 	AllReachable       bool // every file is reachable from main.journal
 	Islands            bool // sometimes main.journal includes nothing while the other files form a tree of their own
 }
+
+// RelFrom is the include path that names file to (relative to the workspace) in file from.
+func RelFrom(from, to string) string { return relFrom(from, to) }
 
 func relFrom(from, to string) string {
 	fd, td := "", ""
